@@ -171,6 +171,7 @@ Proof.
   - destruct (import_list Ops (fs_get fs p0) dim ignored); cbn in H; try discriminate. inversion H; subst; reflexivity.
   - destruct (import_table Ops (fs_get fs p0) dims ignored); cbn in H; try discriminate. inversion H; subst; reflexivity.
   - inversion H; subst; reflexivity.
+  - inversion H; subst; reflexivity.
 Qed.
 
 Lemma run_preserves ops : forall fs fs' outs p,
@@ -209,12 +210,13 @@ Qed.
 (** what the readers return depends on the file system only through the file at the path read *)
 Lemma step_reads_only_its_file fs1 fs2 o :
   writes o = None ->
-  (forall p, (match o with OImportList q _ _ | OImportTable q _ _ | OCountLines q => q | _ => p end) = p -> fs_get fs1 p = fs_get fs2 p) ->
+  (forall p, (match o with OImportList q _ _ | OImportTable q _ _ | OCountLines q | OFileExists q => q | _ => p end) = p -> fs_get fs1 p = fs_get fs2 p) ->
   rmap snd (step fs1 o) = rmap snd (step fs2 o).
 Proof.
   destruct o; cbn; intros W H; try discriminate.
   - rewrite (H p eq_refl). destruct (import_list Ops (fs_get fs2 p) dim ignored); reflexivity.
   - rewrite (H p eq_refl). destruct (import_table Ops (fs_get fs2 p) dims ignored); reflexivity.
+  - rewrite (H p eq_refl). reflexivity.
   - rewrite (H p eq_refl). reflexivity.
 Qed.
 
